@@ -28,6 +28,11 @@
       (iv)  the operand of a plain `is` does not start with `not`; `let T be E` without operator
             does not start with `-` (it would be read as the compound operator).
   * `Stop` : what may follow a construct (its first token must not continue it).
+  * poetic assignments and `rock … like`: a poetic number literal is a list of `PoeticItem`s (the
+    tokens the literal loop takes, of ANY kind: keywords count as words), the text of a poetic
+    string is a parameter of the syntax and `Fits` ties it to the source text; `Fits` also collects
+    the other places where the parser reads something of a template token.
+  * `…D d` : the spellings of the end of the input (the last `d` newlines omitted); `…E` = all.
 
   Core Lean + the model's `Ast`/`Token`/`Lexer.isWord` only.
 -/
@@ -662,8 +667,100 @@ def Target.edgeCall (t : Target N) : Bool := subsEdgeCall t.subs false
 def EdgeStop (ec : Bool) (rest : List (Tok N)) : Prop :=
   nextIn [.word, .taking, .at] rest = false ∧ (ec = true → nextIn argSeps rest = false)
 
-/-- The statements that fit on a line, except poetic assignments (property C11) and
-    `rock … like <poetic literal>`. -/
+/-! ### poetic literals and poetic assignments -/
+
+/-- One item of a poetic number literal, as written. -/
+inductive PoeticItem where
+  /-- `,`: skipped -/
+  | comma
+  /-- `.` -/
+  | dot
+  /-- an `'s` (`re = false`) or `'re` token, with its spelling -/
+  | apos (re : Bool) (sp : Str)
+  /-- a hyphen (a `Minus` token spelled `-`) and the token after it, of ANY kind `k`, spelled `w` -/
+  | hyphen (w : Str) (k : TK)
+  /-- any other token, of kind `k`, spelled `w` (keywords count as words) -/
+  | word (w : Str) (k : TK)
+  deriving Repr
+
+def PoeticItem.toks : PoeticItem → Choices N → List (Tok N)
+  | .comma, c => [tk (.kw .comma) (c.sub 0)]
+  | .dot, c => [tk (.kw .dot) (c.sub 0)]
+  | .apos re sp, c => [tk (.spelled (if re then .apostropheRE else .apostropheS) sp) (c.sub 0)]
+  | .hyphen w k, c => [tk (.spelled .minus ['-']) (c.sub 0), tk (.spelled k w) (c.sub 1)]
+  | .word w k, c => [tk (.spelled k w) (c.sub 0)]
+
+/-- the elements an item contributes to the literal (as `Rrss/Ast.lean` stores them) -/
+def PoeticItem.elems : PoeticItem → List PoeticElem
+  | .comma => []
+  | .dot => [.dot]
+  | .apos _ sp => [.suffix sp]
+  | .hyphen w _ => [.suffix ('-' :: w)]
+  | .word w _ => [.word w]
+
+/-- the kinds the literal loop recognises whatever the spelling -/
+def poeticPunct : List TK := [.dot, .comma, .apostropheS, .apostropheRE]
+
+/-- a word item is word-like and not of a kind that is read as punctuation; the token after a
+    hyphen is word-like -/
+def PoeticItem.wf : PoeticItem → Bool
+  | .hyphen w _ => Lexer.isWord w
+  | .word w k => Lexer.isWord w && !poeticPunct.contains k
+  | _ => true
+
+def PoeticItem.isHyphen : PoeticItem → Bool
+  | .hyphen _ _ => true
+  | _ => false
+
+def itemsToks : List PoeticItem → Choices N → List (Tok N)
+  | [], _ => []
+  | i :: is, c => i.toks (c.sub 0) ++ itemsToks is (c.sub 1)
+
+def itemsElems : List PoeticItem → List PoeticElem
+  | [] => []
+  | i :: is => i.elems ++ itemsElems is
+
+/-- a poetic number literal: items well-formed, at least one element, no leading hyphen -/
+def litWf (is : List PoeticItem) : Bool :=
+  is.all PoeticItem.wf && !(itemsElems is).isEmpty &&
+    !(match is with
+      | i :: _ => i.isHyphen
+      | [] => false)
+
+/-- the kinds of literal words -/
+def literalKinds : List TK := [.mysterious, .null, .number, .stringLit, .empty, .true_, .false_]
+
+/-- the literal can be the right-hand side of `is`: its first token is not a literal word (a
+    right-hand side that starts with a literal word is an ordinary expression) -/
+def litAssignable : List PoeticItem → Bool
+  | .word _ k :: _ => !literalKinds.contains k
+  | _ => true
+
+/-- does this token continue a poetic number literal? -/
+def continuesPoetic (t : Tok N) : Bool :=
+  poeticPunct.contains t.kind || (t.kind == .minus && t.spelling == ['-']) || Lexer.isWord t.spelling
+
+/-- `rest` does not continue a poetic number literal -/
+def PoeticEnd (rest : List (Tok N)) : Prop :=
+  ∀ t, rest.head? = some t → continuesPoetic t = false
+
+/-- `says` | `say` -/
+def saysKind (n : Nat) : TK := if n % 2 = 0 then .says else .say
+
+/-- the tokens on the rest of a `says` line: of the given kinds, everything else as the template
+    says -/
+def junkToks : List TK → Choices N → List (Tok N)
+  | [], _ => []
+  | k :: ks, c => tk (.kw k) (c.sub 0) :: junkToks ks (c.sub 1)
+
+/-- the source text from byte `start` to the start of the first token of `rest` (to the end of the
+    source if there is none): what `get_literal_text_between` / `_after` return -/
+def lineText (src : Str) (start : Nat) (rest : List (Tok N)) : Option Str :=
+  match rest with
+  | t :: _ => Lexer.substr src start t.start
+  | [] => Lexer.substr src start (ulen src)
+
+/-- The statements that fit on a line. -/
 inductive SimpleStmt (N : Type) where
   /-- `say E` (any alias of `say`) -/
   | say (e : Expression N)
@@ -694,6 +791,15 @@ inductive SimpleStmt (N : Type) where
   | mutation (op : MutOp) (p : Primary N) (into : Option (Target N)) (param : Option (Expression N))
   /-- `f taking args` as a statement -/
   | call (f : VarSpec) (arg : Unary N) (args : List (Unary N))
+  /-- `T is|'s|'re <poetic number literal>` -/
+  | poeticLit (t : Target N) (lit : List PoeticItem)
+  /-- `T is|'s|'re E` where `E` starts with a literal word or is a negative number: an ordinary
+      expression -/
+  | poeticExpr (t : Target N) (e : Expression N)
+  /-- `T says|say <text>`; `junk` are the kinds of the tokens on the rest of the line -/
+  | poeticStr (t : Target N) (text : Str) (junk : List TK)
+  /-- `rock P like <poetic number literal>` -/
+  | rockLike (p : Primary N) (lit : List PoeticItem)
 
 def mutKind : MutOp → TK
   | .cut => .cut
@@ -760,6 +866,14 @@ def SimpleStmt.toks : SimpleStmt N → Choices N → List (Tok N)
           | none => [])))
   | .call f a as, c =>
       f.toks (c.sub 0) ++ tk (.kw .taking) (c.sub 1) :: (a.toks (c.sub 2) ++ argsToks as (c.sub 3))
+  | .poeticLit t lit, c =>
+      t.toks (c.sub 0) ++ tk (.kw (isKind3 (c.sub 1).choice)) (c.sub 1) :: itemsToks lit (c.sub 2)
+  | .poeticExpr t e, c =>
+      t.toks (c.sub 0) ++ tk (.kw (isKind3 (c.sub 1).choice)) (c.sub 1) :: unparse e (c.sub 2)
+  | .poeticStr t _ junk, c =>
+      t.toks (c.sub 0) ++ tk (.kw (saysKind (c.sub 1).choice)) (c.sub 1) :: junkToks junk (c.sub 2)
+  | .rockLike p lit, c =>
+      tk (.kw .rock) (c.sub 0) :: (p.toks (c.sub 1) ++ tk (.kw .like) (c.sub 2) :: itemsToks lit (c.sub 3))
 
 def OpList.toExprList (l : OpList (Expression N)) : ExprList N := ⟨toAst l.first, l.rest.map toAst⟩
 
@@ -779,6 +893,20 @@ def SimpleStmt.toStmt : SimpleStmt N → Stmt N
   | .continue_ _ => .continue_ default
   | .mutation op p into param => .mutation op p.toAst (into.map Target.toLhs) (param.map toAst)
   | .call f a as => .call f.toName default (a.toAst :: argsToAst as)
+  | .poeticLit t lit => .poeticNum t.toLhs (.lit (itemsElems lit))
+  | .poeticExpr t e => .poeticNum t.toLhs (.expr (toAst e))
+  | .poeticStr t text _ => .poeticStr t.toLhs text
+  | .rockLike p lit => .push p.toAst (some (.lit (itemsElems lit)))
+
+/-- the first operand of an expression -/
+def Expression.headUnary (e : Expression N) : Unary N := e.head.head.head.head
+
+/-- how an expression can be the right-hand side of a poetic `is`: it starts with a literal word
+    (`some false`), or it starts with a negative number, `-` `<number>` (`some true`) -/
+def Unary.poeticStart : Unary N → Option Bool
+  | .mk [] (.mk (.lit _) _) => some false
+  | .mk [.minus] (.mk (.lit (.num _)) _) => some true
+  | _ => none
 
 /-- is this primary a bare identifier? -/
 def Primary.isIdent : Primary N → Bool
@@ -815,6 +943,10 @@ def SimpleStmt.wf : SimpleStmt N → Bool
         (match into with | some t => t.wf | none => true) &&
         (match param with | some e => e.wf | none => true)
   | .call f a as => f.wf && a.wf && argsWf as && chainOK Unary.edgeCall a as
+  | .poeticLit t lit => t.wf && litWf lit && litAssignable lit
+  | .poeticExpr t e => t.wf && e.wf && e.headUnary.poeticStart.isSome
+  | .poeticStr t _ junk => t.wf && junk.all (· != .newline)
+  | .rockLike p lit => p.wf && litWf lit
 
 /-- what may follow an operand list outside any list -/
 def ListStop (l : OpList (Expression N)) (rest : List (Tok N)) : Prop :=
@@ -845,6 +977,29 @@ def SimpleStmt.Stop : SimpleStmt N → List (Tok N) → Prop
       | none, some t => EdgeStop t.edgeCall rest ∧ nextIn [.with_] rest = false
       | none, none => EdgeStop p.edgeCall rest ∧ nextIn [.into, .with_] rest = false
   | .call _ _ _, rest => nextIn [.word, .taking, .at] rest = false ∧ nextIn argSeps rest = false
+  | .poeticLit _ _, rest => PoeticEnd rest
+  | .poeticExpr _ e, rest => e.Stop rest
+  | .poeticStr _ _ _, rest => rest = [] ∨ nextIn [.newline] rest = true
+  | .rockLike _ _, rest => PoeticEnd rest
+
+/-- The two places where the parser reads something of a token that the grammar leaves to the
+    template, apart from the token after the statement (`Stop`): the hyphen test of `X is -5` looks at
+    the SPELLING of the `Minus` token (`-`, not `minus`), and the text of `X says …` is cut out of the
+    source between the START of the `says` token and the start of the next `Newline` token (the end
+    of the source if there is none). -/
+def SimpleStmt.Fits (src : Str) : SimpleStmt N → Choices N → List (Tok N) → Prop
+  | .poeticExpr _ e, c, _ =>
+      e.headUnary.poeticStart = some true → ∀ t, (unparse e (c.sub 2)).head? = some t → t.spelling = ['-']
+  | .poeticStr _ text _, c, rest =>
+      lineText src (c.sub 1).here.start rest = some ((c.sub 1).here.spelling ++ ' ' :: text)
+  | _, _, _ => True
+
+/-- the part of `Stop` that looks at the SPELLING of the next token -/
+def SimpleStmt.PeekStop : SimpleStmt N → List (Tok N) → Prop
+  | .break_ none, rest => ∀ t, rest.head? = some t → (CharOps.lower t.spelling == str% "it") = false
+  | .poeticLit _ _, rest => PoeticEnd rest
+  | .rockLike _ _, rest => PoeticEnd rest
+  | _, _ => True
 
 /-! ### statements up to source positions -/
 
@@ -927,6 +1082,18 @@ def SimpleStmt.commaOK : SimpleStmt N → Bool
       | none, some t => !t.edgeCall
       | none, none => !p.edgeCall
   | .call _ _ _ => false
+  | .poeticLit _ _ => false
+  | .poeticExpr _ e => e.commaOK
+  | .poeticStr _ _ _ => false
+  | .rockLike _ _ => false
+
+/-- may the statement be followed by the `.` of a line end? (not if a poetic literal or the text of
+    a poetic string would take it) -/
+def SimpleStmt.dotOK : SimpleStmt N → Bool
+  | .poeticLit _ _ => false
+  | .poeticStr _ _ _ => false
+  | .rockLike _ _ => false
+  | _ => true
 
 /-- Statements with their line ends; a block is a list of statements. A compound statement is
     closed by ONE blank line (a `Newline` token where a statement would start); a function whose
@@ -1024,7 +1191,7 @@ def fnBodyOK : List (Statement N) → Bool
 mutual
 /-- side conditions of a statement with its line end -/
 def Statement.wf : Statement N → Bool
-  | .simple s eol => s.wf && (eol != .comma || s.commaOK)
+  | .simple s eol => s.wf && ((eol != .comma || s.commaOK) && (eol != .dot || s.dotOK))
   | .ifS cond eol t e =>
       cond.wf && (eol != .comma || cond.commaOK) && stmtsWf t &&
         (match e with
@@ -1045,7 +1212,8 @@ def blockToks (b : List (Statement N)) (c : Choices N) : List (Tok N) :=
   | [] => [tk (.kw .newline) (c.sub 0)]
   | _ :: _ => linesToks b c
 
-/-- no template token is spelled `it` (a bare `break` looks at the spelling of the next token) -/
+/-- no template token is spelled `it`: a sufficient condition for the `break` part of `Fits`
+    (a bare `break` looks at the spelling of the next token) -/
 def Choices.NoIt (c : Choices N) : Prop :=
   ∀ p, (CharOps.lower (c.tok p).spelling == str% "it") = false
 
@@ -1061,6 +1229,46 @@ def LineEnd (rest : List (Tok N)) : Prop :=
 def Statement.Stop : Statement N → List (Tok N) → Prop
   | .simple s _, rest => s.Stop rest
   | _, rest => LineEnd rest
+
+/-! ### where the parser reads template tokens
+
+  Three places of the parser read something of a token that the grammar does not fix: a bare
+  `break` reads the SPELLING of the next token (`it`?), a poetic number literal reads the spelling
+  of the next token (word-like?), `X is -5` reads the spelling of the `Minus` token and `X says …`
+  reads token START offsets and the source text. `Fits` collects, for every such place in a block,
+  the condition under which the parser sees what the grammar means; for statements without these
+  constructs it is `True`. -/
+
+/-- the spelling-dependent stop condition of a line: the first token of the line end does not
+    continue the statement -/
+def Statement.EolOK : Statement N → Choices N → Prop
+  | .simple s eol, c => s.PeekStop (Grammar.eolToks eol c)
+  | _, _ => True
+
+mutual
+/-- the template conditions inside the statement, which is followed by `rest` -/
+def Statement.Fits (src : Str) : Statement N → Choices N → List (Tok N) → Prop
+  | .simple s _, c, rest => s.Fits src c rest
+  | .ifS _ _ t e, c, _ =>
+      linesFit src t (c.sub 3) ∧
+        (match e with
+         | some b => linesFit src b (c.sub 6)
+         | none => True)
+  | .whileS _ _ b, c, _ => linesFit src b (c.sub 3)
+  | .untilS _ _ b, c, _ => linesFit src b (c.sub 3)
+  | .func _ _ _ _ b, c, _ => fnLinesFit src b (c.sub 5)
+/-- … in the lines of a block -/
+def linesFit (src : Str) : List (Statement N) → Choices N → Prop
+  | [], _ => True
+  | s :: ss, c =>
+      s.Fits src (c.sub 0) (s.eolToks (c.sub 1)) ∧ s.EolOK (c.sub 1) ∧ linesFit src ss (c.sub 2)
+/-- … in the lines of a function body -/
+def fnLinesFit (src : Str) : List (Statement N) → Choices N → Prop
+  | [], _ => True
+  | s :: ss, c =>
+      (if ss.isEmpty && s.isIfElse then s.Fits src (c.sub 0) []
+       else s.Fits src (c.sub 0) (s.eolToks (c.sub 1)) ∧ s.EolOK (c.sub 1)) ∧ fnLinesFit src ss (c.sub 2)
+end
 
 /-! ### programs -/
 
@@ -1084,6 +1292,11 @@ def progToAst (bs : List (List (Statement N))) : List (Block N) :=
 /-- every top-level block is non-empty and well-formed -/
 def progWf (bs : List (List (Statement N))) : Bool :=
   bs.all fun b => !b.isEmpty && stmtsWf b
+
+/-- the template conditions of a program -/
+def progFits (src : Str) : List (List (Statement N)) → Choices N → Prop
+  | [], _ => True
+  | b :: bs, c => linesFit src b (c.sub 1) ∧ progFits src bs (c.sub 3)
 
 /-! ### the end of the tokens instead of the last line ends
 
@@ -1144,6 +1357,181 @@ def progToksE : List (List (Statement N)) → Choices N → List (Tok N)
   | b :: b' :: bs, c =>
       blanksToks (c.sub 0).choice (c.sub 0) ++ (linesToks b (c.sub 1) ++
         tk (.kw .newline) (c.sub 2) :: progToksE (b' :: bs) (c.sub 3))
+
+/-! ### omitting some of the last line ends
+
+  The end of the tokens is accepted wherever a `Newline` is: the general form. `…D d` is the
+  spelling in which the LAST `d` `Newline` tokens of the program — the blank lines that close the
+  open blocks, from the outermost inwards, then the `Newline` of the last line, then (if the last
+  block is empty) the blank line that stands for it and the `Newline` of its header line — are
+  omitted (all of them if there are fewer than `d`): `if x⏎say 1⏎⏎` (d = 0, inside a top-level
+  block), `if x⏎say 1⏎`, `if x⏎say 1`; `if x⏎⏎`, `if x⏎`, `if x`. -/
+
+/-- the punctuation of a line end, without the `Newline` -/
+def eolPunct (e : Eol) (c : Choices N) : List (Tok N) :=
+  match e with
+  | .none => []
+  | .dot => [tk (.kw .dot) (c.sub 0)]
+  | .comma => [tk (.kw .comma) (c.sub 0)]
+
+/-- the `Newline` of a header line and the blank line that stands for the empty block after it,
+    with the last `d` of them omitted -/
+def emptyTailD (d : Nat) (nlHeader nlBlock : Tok N) : List (Tok N) :=
+  match d with
+  | 0 => [nlHeader, nlBlock]
+  | 1 => [nlHeader]
+  | _ => []
+
+/-- the line end of a header line and the last block `b` of the input (whose lines, at depth `d`,
+    are `lines`): if the block is empty, the `Newline` of the header line and the blank line that
+    stands for the block are among the newlines that can be omitted -/
+def headerTailD (d : Nat) (eol : Eol) (b : List (Statement N)) (c2 c3 : Choices N) (lines : List (Tok N)) :
+    List (Tok N) :=
+  match b with
+  | [] => eolPunct eol c2 ++ emptyTailD d (tk (.kw .newline) (c2.sub 1)) (tk (.kw .newline) (c3.sub 0))
+  | _ :: _ => Grammar.eolToks eol c2 ++ lines
+
+/-- the same after `else` -/
+def elseTailD (d : Nat) (b : List (Statement N)) (c5 c6 : Choices N) (lines : List (Tok N)) : List (Tok N) :=
+  match b with
+  | [] => emptyTailD d (tk (.kw .newline) c5) (tk (.kw .newline) (c6.sub 0))
+  | _ :: _ => tk (.kw .newline) c5 :: lines
+
+mutual
+/-- the tokens of a statement that is the last thing in the input, the last `d` newlines omitted -/
+def Statement.toksD : Nat → Statement N → Choices N → List (Tok N)
+  | _, .simple s _, c => s.toks c
+  | d, .ifS cond eol t none, c =>
+      tk (.kw .if_) (c.sub 0) :: (unparse cond (c.sub 1) ++
+        headerTailD d eol t (c.sub 2) (c.sub 3) (linesToksD d t (c.sub 3)))
+  | d, .ifS cond eol t (some b), c =>
+      tk (.kw .if_) (c.sub 0) :: (unparse cond (c.sub 1) ++ (Grammar.eolToks eol (c.sub 2) ++
+        ((match t with
+          | [] => [tk (.kw .newline) ((c.sub 3).sub 0)]
+          | _ :: _ => linesToks t (c.sub 3)) ++
+         (tk (.kw .else_) (c.sub 4) :: elseTailD d b (c.sub 5) (c.sub 6) (linesToksD d b (c.sub 6))))))
+  | d, .whileS cond eol b, c =>
+      tk (.kw .while_) (c.sub 0) :: (unparse cond (c.sub 1) ++
+        headerTailD d eol b (c.sub 2) (c.sub 3) (linesToksD d b (c.sub 3)))
+  | d, .untilS cond eol b, c =>
+      tk (.kw .until_) (c.sub 0) :: (unparse cond (c.sub 1) ++
+        headerTailD d eol b (c.sub 2) (c.sub 3) (linesToksD d b (c.sub 3)))
+  | d, .func f p ps eol b, c =>
+      f.toks (c.sub 0) ++ tk (.kw .takes) (c.sub 1) :: (p.toks (c.sub 2) ++ (paramsToks ps (c.sub 3) ++
+        headerTailD d eol b (c.sub 4) (c.sub 5) (fnLinesToksD d b (c.sub 5))))
+/-- the lines of a block that is the last thing in the input, the last `d` newlines omitted -/
+def linesToksD : Nat → List (Statement N) → Choices N → List (Tok N)
+  | _, [], _ => []
+  | d, s :: ss, c =>
+      match ss with
+      | [] =>
+          (match d with
+           | 0 => s.toks (c.sub 0) ++ s.eolToks (c.sub 1)
+           | d' + 1 => s.toksD d' (c.sub 0) ++ s.eolToksE (c.sub 1))
+      | _ :: _ => s.toks (c.sub 0) ++ (s.eolToks (c.sub 1) ++ linesToksD d ss (c.sub 2))
+/-- the lines of a function body that is the last thing in the input -/
+def fnLinesToksD : Nat → List (Statement N) → Choices N → List (Tok N)
+  | _, [], _ => []
+  | d, s :: ss, c =>
+      match ss with
+      | [] =>
+          if s.isIfElse then s.toksD d (c.sub 0)
+          else
+            (match d with
+             | 0 => s.toks (c.sub 0) ++ s.eolToks (c.sub 1)
+             | d' + 1 => s.toksD d' (c.sub 0) ++ s.eolToksE (c.sub 1))
+      | _ :: _ => s.toks (c.sub 0) ++ (s.eolToks (c.sub 1) ++ fnLinesToksD d ss (c.sub 2))
+end
+
+/-- a program whose last top-level block is not closed by a blank line, and in which the last `d`
+    further newlines are omitted -/
+def progToksD (d : Nat) : List (List (Statement N)) → Choices N → List (Tok N)
+  | [], _ => []
+  | [b], c => blanksToks (c.sub 0).choice (c.sub 0) ++ linesToksD d b (c.sub 1)
+  | b :: b' :: bs, c =>
+      blanksToks (c.sub 0).choice (c.sub 0) ++ (linesToks b (c.sub 1) ++
+        tk (.kw .newline) (c.sub 2) :: progToksD d (b' :: bs) (c.sub 3))
+
+/-- the spelling-dependent stop condition of the last line when its `Newline` is omitted -/
+def Statement.EolOKE : Statement N → Choices N → Prop
+  | .simple s eol, c => s.PeekStop (eolPunct eol c)
+  | _, _ => True
+
+mutual
+/-- the template conditions (`Fits`) for the spelling `toksD d` -/
+def Statement.FitsD (src : Str) : Nat → Statement N → Choices N → List (Tok N) → Prop
+  | _, .simple s _, c, rest => s.Fits src c rest
+  | d, .ifS _ _ t none, c, _ => linesFitD src d t (c.sub 3)
+  | d, .ifS _ _ t (some b), c, _ => linesFit src t (c.sub 3) ∧ linesFitD src d b (c.sub 6)
+  | d, .whileS _ _ b, c, _ => linesFitD src d b (c.sub 3)
+  | d, .untilS _ _ b, c, _ => linesFitD src d b (c.sub 3)
+  | d, .func _ _ _ _ b, c, _ => fnLinesFitD src d b (c.sub 5)
+def linesFitD (src : Str) : Nat → List (Statement N) → Choices N → Prop
+  | _, [], _ => True
+  | d, s :: ss, c =>
+      match ss with
+      | [] =>
+          (match d with
+           | 0 => s.Fits src (c.sub 0) (s.eolToks (c.sub 1)) ∧ s.EolOK (c.sub 1)
+           | d' + 1 => s.FitsD src d' (c.sub 0) (s.eolToksE (c.sub 1)) ∧ s.EolOKE (c.sub 1))
+      | _ :: _ =>
+          s.Fits src (c.sub 0) (s.eolToks (c.sub 1)) ∧ s.EolOK (c.sub 1) ∧ linesFitD src d ss (c.sub 2)
+def fnLinesFitD (src : Str) : Nat → List (Statement N) → Choices N → Prop
+  | _, [], _ => True
+  | d, s :: ss, c =>
+      match ss with
+      | [] =>
+          if s.isIfElse then s.FitsD src d (c.sub 0) []
+          else
+            (match d with
+             | 0 => s.Fits src (c.sub 0) (s.eolToks (c.sub 1)) ∧ s.EolOK (c.sub 1)
+             | d' + 1 => s.FitsD src d' (c.sub 0) (s.eolToksE (c.sub 1)) ∧ s.EolOKE (c.sub 1))
+      | _ :: _ =>
+          s.Fits src (c.sub 0) (s.eolToks (c.sub 1)) ∧ s.EolOK (c.sub 1) ∧ fnLinesFitD src d ss (c.sub 2)
+end
+
+def progFitsD (src : Str) (d : Nat) : List (List (Statement N)) → Choices N → Prop
+  | [], _ => True
+  | [b], c => linesFitD src d b (c.sub 1)
+  | b :: b' :: bs, c => linesFit src b (c.sub 1) ∧ progFitsD src d (b' :: bs) (c.sub 3)
+
+/-! ### … all of them (`toksE`): the depth at which `toksD` is `toksE` -/
+
+mutual
+def Statement.eofDepth : Statement N → Nat
+  | .simple _ _ => 0
+  | .ifS _ _ t none => linesEofDepth t
+  | .ifS _ _ _ (some b) => linesEofDepth b
+  | .whileS _ _ b => linesEofDepth b
+  | .untilS _ _ b => linesEofDepth b
+  | .func _ _ _ _ b => fnLinesEofDepth b
+/-- an empty last block: only the blank line that stands for it is omitted -/
+def linesEofDepth : List (Statement N) → Nat
+  | [] => 1
+  | s :: ss =>
+      match ss with
+      | [] => s.eofDepth + 1
+      | _ :: _ => linesEofDepth ss
+def fnLinesEofDepth : List (Statement N) → Nat
+  | [] => 1
+  | s :: ss =>
+      match ss with
+      | [] => if s.isIfElse then s.eofDepth else s.eofDepth + 1
+      | _ :: _ => fnLinesEofDepth ss
+end
+
+/-- the depth of the last top-level block -/
+def progEofDepth : List (List (Statement N)) → Nat
+  | [] => 0
+  | [b] => linesEofDepth b
+  | _ :: b' :: bs => progEofDepth (b' :: bs)
+
+/-- the template conditions for the spelling `toksE` -/
+def Statement.FitsE (src : Str) (s : Statement N) (c : Choices N) : Prop := s.FitsD src s.eofDepth c []
+
+/-- the template conditions for the spelling `progToksE` -/
+def progFitsE (src : Str) (bs : List (List (Statement N))) (c : Choices N) : Prop :=
+  progFitsD src (progEofDepth bs) bs c
 
 end
 
